@@ -26,6 +26,9 @@ pub enum CompilerError {
     InvalidLiteralType(Literal, Type),
     /// The constant was declared in the program but not provided during compilation.
     MissingConstant(String, String, MetaInfo),
+    /// The specified function cannot be compiled to a circuit, because its parameters do not have
+    /// any input bits (all of them are of zero-sized types).
+    FnWithoutInputBits(String),
 }
 
 impl PartialOrd for CompilerError {
@@ -39,6 +42,16 @@ impl Ord for CompilerError {
         match (self, other) {
             (CompilerError::FnNotFound(fn1), CompilerError::FnNotFound(fn2)) => fn1.cmp(fn2),
             (CompilerError::FnNotFound(_), _) => std::cmp::Ordering::Less,
+            (CompilerError::FnWithoutInputBits(fn1), CompilerError::FnWithoutInputBits(fn2)) => {
+                fn1.cmp(fn2)
+            }
+            (CompilerError::FnWithoutInputBits(_), CompilerError::FnNotFound(_)) => {
+                std::cmp::Ordering::Greater
+            }
+            (CompilerError::FnWithoutInputBits(_), _) => std::cmp::Ordering::Less,
+            (CompilerError::InvalidLiteralType(_, _), CompilerError::FnWithoutInputBits(_)) => {
+                std::cmp::Ordering::Greater
+            }
             (CompilerError::InvalidLiteralType(_, _), CompilerError::FnNotFound(_)) => {
                 std::cmp::Ordering::Greater
             }
@@ -69,6 +82,9 @@ impl std::fmt::Display for CompilerError {
             }
             CompilerError::MissingConstant(party, identifier, _) => f.write_fmt(format_args!(
                 "The constant {party}::{identifier} was declared in the program but never provided"
+            )),
+            CompilerError::FnWithoutInputBits(fn_name) => f.write_fmt(format_args!(
+                "The function '{fn_name}' cannot be compiled to a circuit, because its parameters do not have any input bits"
             )),
         }
     }
@@ -246,6 +262,10 @@ impl TypedProgram {
                 input_gates.push(type_size);
                 env.let_in_current_scope(param.name.clone(), wires);
             }
+        }
+        if input_gates.iter().sum::<usize>() == 0 {
+            // (a circuit needs at least one input bit, see `Circuit::validate`)
+            return Err(vec![CompilerError::FnWithoutInputBits(fn_name.to_string())]);
         }
         let builder_opts = CircuitBuilderOptions {
             cache_gates: opts.optimize_duplicate_gates,
